@@ -27,6 +27,8 @@ import (
 	"github.com/nspcc-dev/neo-go/pkg/smartcontract/callflag"
 	"github.com/nspcc-dev/neo-go/pkg/smartcontract/trigger"
 	"github.com/nspcc-dev/neo-go/pkg/util"
+	"github.com/nspcc-dev/neo-go/pkg/vm/emit"
+	"github.com/nspcc-dev/neo-go/pkg/vm/opcode"
 	"github.com/nspcc-dev/neo-go/pkg/vm/stackitem"
 	"github.com/nspcc-dev/neo-go/verifharness/vlib/ev"
 )
@@ -55,13 +57,13 @@ type covKey struct {
 	want    bool
 }
 
-var frameNames = []string{"-", "entry", "A", "B", "C", "D", "GAS"}
+var frameNames = []string{"-", "entry", "A", "B", "C", "D", "GAS", "vscript"}
 var frameKinds = []string{"entry", "probe", "dyn", "native"}
 var mutRel = []string{"", "current-contract-changed-its-groups", "calling-contract-changed-its-groups", "other-contract-changed-its-groups"}
 
-var phases = []string{"pre", "post", "native-transfer", "payment-from"}
+var phases = []string{"pre", "post", "native-transfer", "payment-from", "verify"}
 var clauses = []string{"self-call", "global", "called-by-entry", "custom-contracts", "custom-groups", "rule-allow", "rule-deny", "no-match", "non-signer"}
-var tclasses = []string{"signer", "signer-pubkey", "contract", "stranger", "decoy-global", "decoy-none", "unsigned-account", "payment-from"}
+var tclasses = []string{"signer", "signer-pubkey", "contract", "stranger", "decoy-global", "decoy-none", "unsigned-account", "payment-from", "zero-account", "ones-account"}
 
 func idxOf(list []string, s string) int8 {
 	for i, x := range list {
@@ -76,7 +78,7 @@ func idxOf(list []string, s string) int8 {
 type local struct {
 	byKind   [4]int64
 	byClause [9]int64
-	byPhase  [4]int64
+	byPhase  [5]int64
 	byWant   [2]int64
 	byMut    [4]int64
 	cov      map[covKey]int64
@@ -126,16 +128,30 @@ func targetHash(t []byte) util.Uint160 {
 // have the shape the probes produce.
 func (h *harness) exec(signers []transaction.Signer, targets [][]byte, chain chainSpec) (cells []cell, states []gstate, frames []frame, script []byte, fault string) {
 	w := h.w
+	if chain.mode == 2 {
+		return h.execVerify(signers, targets, chain)
+	}
 	script, rest := w.script(targets, chain.syms, chain.muts)
-	frames = append([]frame{{hash: hashOf(script), kind: "entry", name: "entry"}}, rest...)
+	frames = append([]frame{{hash: hashOf(script), kind: "entry", name: []string{"entry", "vscript"}[chain.mode]}}, rest...)
 	tx := transaction.New(script, 0)
 	tx.Signers = signers
-	ic, err := w.bc.GetTestVM(trigger.Application, tx, nil)
+	trig := trigger.Application
+	if chain.mode == 1 {
+		trig = trigger.Verification
+	}
+	ic, err := w.bc.GetTestVM(trig, tx, nil)
 	if err != nil {
 		return nil, nil, frames, script, "GetTestVM: " + err.Error()
 	}
 	defer ic.Finalize()
-	ic.VM.LoadWithFlags(script, callflag.All)
+	if chain.mode == 1 {
+		// The script is the verification script of a witness whose account is its hash.
+		if err = w.bc.InitVerificationContext(ic, hashOf(script), &transaction.Witness{VerificationScript: script}); err != nil {
+			return nil, nil, frames, script, "InitVerificationContext: " + err.Error()
+		}
+	} else {
+		ic.VM.LoadWithFlags(script, callflag.All)
+	}
 	func() {
 		defer func() {
 			if r := recover(); r != nil {
@@ -162,6 +178,57 @@ func (h *harness) exec(signers []transaction.Signer, targets [][]byte, chain cha
 		d.err = "unclaimed payment notification"
 	}
 	return d.cells, d.states, frames, script, d.err
+}
+
+// execVerify runs the verify method of the probe chain.syms[0] as the entry
+// context of a witness verification, once per target (the method returns one
+// bool). A run that faults yields no cell for that target; all of them
+// faulting is reported as a fault.
+func (h *harness) execVerify(signers []transaction.Signer, targets [][]byte, chain chainSpec) (cells []cell, states []gstate, frames []frame, script []byte, fault string) {
+	w := h.w
+	p := w.probeIdx(chain.syms[0])
+	frames = []frame{w.pframes[p]}
+	states = []gstate{nil}
+	th := targetHashes(targets)
+	for i, t := range targets {
+		inv := io.NewBufBinWriter()
+		emit.Bytes(inv.BinWriter, t)
+		tx := transaction.New([]byte{byte(opcode.RET)}, 0)
+		tx.Signers = signers
+		ic, err := w.bc.GetTestVM(trigger.Verification, tx, nil)
+		if err != nil {
+			return nil, states, frames, nil, "GetTestVM: " + err.Error()
+		}
+		if err = w.bc.InitVerificationContext(ic, w.pframes[p].hash, &transaction.Witness{InvocationScript: inv.Bytes()}); err == nil {
+			func() {
+				defer func() {
+					if r := recover(); r != nil {
+						err = fmt.Errorf("panic: %v", r)
+					}
+				}()
+				err = ic.VM.Run()
+			}()
+		}
+		if err == nil && ic.VM.Estack().Len() != 1 {
+			err = fmt.Errorf("verify left %d items", ic.VM.Estack().Len())
+		}
+		if err == nil {
+			b, ok := ic.VM.Estack().Pop().Item().(stackitem.Bool)
+			if !ok {
+				err = fmt.Errorf("verify returned a non-bool")
+			} else {
+				cells = append(cells, cell{pos: 0, phase: "verify", target: i, hash: th[i], got: bool(b)})
+			}
+		}
+		ic.Finalize()
+		if err != nil && fault == "" {
+			fault = "verify: " + err.Error()
+		}
+	}
+	if len(cells) > 0 {
+		fault = "" // partial faults are judged by the caller through the missing cells
+	}
+	return cells, states, frames, nil, fault
 }
 
 // targetHashes maps every target to the account it stands for; public keys are
@@ -296,7 +363,7 @@ func (d *decoder) frame(it stackitem.Item, pos int, p int, own int8, rest []sym,
 }
 
 func chainName(c chainSpec) string {
-	n := "e"
+	n := []string{"e", "verification-script", "verify-method-of"}[c.mode]
 	for i, s := range c.syms {
 		n += ">" + string(rune(s))
 		switch {
@@ -356,14 +423,19 @@ func (h *harness) want(signers []transaction.Signer, frames []frame, states []gs
 }
 
 // runCase executes one (configuration, chain) pair and compares every cell.
-func (h *harness) runCase(l *local, cfg *sconfig, ci int) {
-	chain := h.chains[ci]
+func (h *harness) runCase(l *local, cfg *sconfig, chain chainSpec, faultNotPassing bool) {
 	caseID := fmt.Sprintf("%s/%d/%s", cfg.part, cfg.idx, chain.id)
 	if !h.run.Want(caseID) {
 		return
 	}
 	cells, states, frames, script, fault := h.exec(cfg.signers, cfg.targets, chain)
 	l.obs["vm_runs"]++
+	if fault != "" && faultNotPassing {
+		// No signers at all: the implementation refuses to evaluate witnesses (the
+		// invocation faults). Nothing passed, which is all the property asks here.
+		l.obs["runs_without_signers_faulted_nothing_passed"]++
+		return
+	}
 	if fault != "" {
 		l.obs["faults"]++
 		h.run.Violation("unexpected-fault:"+hexRe.ReplaceAllString(firstLine(fault), "#"), caseID,
@@ -402,7 +474,32 @@ func (h *harness) runCase(l *local, cfg *sconfig, ci int) {
 			// with the hash argument (the cell just before) agrees with the reference.
 			keyedOnly := c.target > 0 && len(cfg.targets[c.target]) != 20 && i > 0 && cells[i-1].hash == c.hash &&
 				cells[i-1].pos == c.pos && cells[i-1].phase == c.phase && cells[i-1].got == want
-			h.report(cfg, chain, ci, caseID, frames, states, script, c, want, clause, keyedOnly)
+			h.report(cfg, chain, caseID, frames, states, script, c, want, clause, keyedOnly)
+		}
+	}
+}
+
+// runNoSigners: a transaction without any signer. Each target is probed alone
+// (a refused evaluation faults the whole invocation): in the entry script, in
+// a verification script, in a verify method, and below them. The reference
+// says false everywhere except for the calling contract's own hash; a fault
+// means nothing passed.
+func (h *harness) runNoSigners(l *local) {
+	w := h.w
+	targets := [][]byte{util.Uint160{}.BytesBE(), fill(0xFF).BytesBE(), w.acc.BytesBE(), w.probes[0].Hash.BytesBE(), w.stranger.BytesBE()}
+	classes := []string{"zero-account", "ones-account", "unsigned-account", "contract", "stranger"}
+	var cs []chainSpec
+	for _, c := range [][]sym{nil, {'A'}, {'D'}, {'A', 'B'}, {'C', 'D'}} {
+		cs = append(cs, mkChain(c, nil), mkChain(c, nil).withMode(1))
+	}
+	for _, p := range "ABC" {
+		cs = append(cs, mkChain([]sym{sym(p)}, nil).withMode(2))
+	}
+	for ti, t := range targets {
+		cfg := sconfig{part: "nosigners", idx: ti, targets: [][]byte{t}, tclass: []string{classes[ti]}, shape: "no-signers"}
+		l.obs["configs_nosigners"]++
+		for _, c := range cs {
+			h.runCase(l, &cfg, c, true)
 		}
 	}
 }
@@ -499,13 +596,16 @@ func (h *harness) minimalCond(cfg *sconfig, chain chainSpec, c *cell, clause str
 // break which flips millions of cells costs one minimisation per shape.
 var sigCache sync.Map
 
-func (h *harness) report(cfg *sconfig, chain chainSpec, ci int, caseID string, frames []frame, states []gstate, script []byte, c *cell, want bool, clause string, keyedOnly bool) {
+func (h *harness) report(cfg *sconfig, chain chainSpec, caseID string, frames []frame, states []gstate, script []byte, c *cell, want bool, clause string, keyedOnly bool) {
 	sig := fmt.Sprintf("cell:%s:want=%v", clause, want)
 	if c.phase == "native-transfer" || c.phase == "payment-from" {
 		sig += ":in-native-transfer"
 	}
 	if keyedOnly {
 		sig += ":public-key-argument"
+	}
+	if clause == "non-signer" && c.hash == (util.Uint160{}) {
+		sig += ":zero-account-argument"
 	}
 	mr := mutRelation(frames, states[c.state], c.pos)
 	key := sig + "|" + cfg.part + "|" + cfg.shape + "|" + mutRel[mr]
@@ -641,6 +741,23 @@ func TestCheck(t *testing.T) {
 	for i := range h.chains {
 		allIdx[i] = i
 	}
+	// The same chains with the generated script as a witness verification script
+	// (Verification trigger; no native payment: read-only flags), the script
+	// alone in both triggers, and each probe's verify method as the entry context.
+	smallIdx := append([]int{}, allIdx...)
+	for _, c := range append(append([][]sym{nil}, basic...), ext...) {
+		if strings.ContainsRune(string(c), 'N') {
+			continue
+		}
+		smallIdx = append(smallIdx, len(h.chains))
+		h.chains = append(h.chains, mkChain(c, nil).withMode(1))
+	}
+	smallIdx = append(smallIdx, len(h.chains))
+	h.chains = append(h.chains, mkChain(nil, nil))
+	for _, p := range "ABC" {
+		smallIdx = append(smallIdx, len(h.chains))
+		h.chains = append(h.chains, mkChain([]sym{sym(p)}, nil).withMode(2))
+	}
 	// Chains in which exactly one probe frame changes its own group membership
 	// (ContractManagement.update / destroy) between its checks.
 	var mutIdx []int
@@ -667,10 +784,11 @@ func TestCheck(t *testing.T) {
 	add := func(name string, cfgs []sconfig, chains []int, full bool) {
 		jobs = append(jobs, job{cfgs: cfgs, n: len(cfgs), chains: chains, name: name, full: full})
 	}
-	add("scopes", w.scopeConfigs(validScopes), allIdx, true)
-	add("rule1", w.rule1Configs("rule1", d2), allIdx, true)
-	add("mixed", w.mixedConfigs(d1), allIdx, true)
-	add("zero-hash", w.zeroConfigs(), allIdx, true)
+	add("scopes", w.scopeConfigs(validScopes), smallIdx, true)
+	add("sentinel", w.sentinelConfigs(validScopes), smallIdx, true)
+	add("rule1", w.rule1Configs("rule1", d2), smallIdx, true)
+	add("mixed", w.mixedConfigs(d1), smallIdx, true)
+	add("zero-hash", w.zeroConfigs(), smallIdx, true)
 	add("rule2", w.rule2Configs("rule2", d1, d1), allIdx, true)
 	if thorough {
 		add("rule2x", w.rule2Configs("rule2x", d2, d1), basicIdx, true)
@@ -740,12 +858,17 @@ func TestCheck(t *testing.T) {
 				cfg.signers = dec
 				l.obs["configs_"+cfg.part]++
 				for _, ci := range u.j.chains {
-					h.runCase(l, &cfg, ci)
+					h.runCase(l, &cfg, h.chains[ci], false)
 				}
 			}
 		}()
 	}
 	wg.Wait()
+	if part == "" || part == "all" || part == "nosigners" {
+		l := newLocal()
+		locals = append(locals, l)
+		h.runNoSigners(l)
+	}
 
 	// Merge the worker-local counters.
 	tot := map[string]int64{}
@@ -851,6 +974,10 @@ func TestCheck(t *testing.T) {
 		"mutate: every scopes configuration with the CustomGroups bit (quick: key account only) + {Allow,Deny} x every condition (quick: a | Not a; thorough: depth<=2) that mentions a Group or CalledByGroup atom, "+
 		"x every chain of the list above in which exactly one probe frame (not at or below a dynamic script) calls ContractManagement.update with a manifest carrying another of the group sets {},{g},{g2},{g,g2} "+
 		"or ContractManagement.destroy between its first checks and the nested call (a destroyed contract is not invoked again); the reference uses the group set in force at the moment of each check. "+
+		"sentinel: signer account in {all-zero hash, all-ones hash} x every decodable scope byte without Rules x {[],[A]} x {[],[g]} + 4 one-rule lists, both accounts being targets of every configuration; "+
+		"the all-zero account is also a target of every configuration of every other part. Parts scopes, sentinel, rule1, mixed and zero-hash additionally run every chain without the native payment with the generated script as a "+
+		"witness verification script (Verification trigger, Blockchain.InitVerificationContext), the script alone (no nested call) in both triggers, and the verify method of each probe contract as the entry context of a witness verification. "+
+		"nosigners: a transaction with no signer at all x 5 single targets x 13 entry contexts (a faulting invocation counts as nothing passed). "+
 		"Composite arity > 2, depth 3 and lists of 3 rules are sampled only (parts deep, multi). "+
 		"matcher: WitnessCondition.Match with a stub context for every tree of depth<=3 with composite arity<=2 over the 16 atoms x every context "+
 		"(6 current frames x {no caller, 6 callers directly from the entry script, 6 callers deeper})")
